@@ -67,12 +67,13 @@ struct Mon {
 	const unsigned N, C, L;
 	const bool plans, history, root_outcomes;
 	int expect_result = -1;          // result the next view must report for the previous action
+	bool logger_ops_effective = true;
 	const void* ev_addr = 0; bool ev_addr_set = false;
 
 	Mon(Node& n_, OpExec& x_, int idx, std::vector<Violation>& o)
 		: n(n_), T(n_.T), x(x_), node_index(idx), out(o), N(g_info->n_states), C(g_info->capacity), L(g_info->limit),
 		  plans(g_info->f_plans), history(g_info->f_history),
-		  root_outcomes(g_info->defines[SUT_INVALID][M_PLAN_SUCCEEDED] && g_info->defines[SUT_INVALID][M_PLAN_FAILED]) {}
+		  root_outcomes(g_info->defines[SUT_INVALID][M_PLAN_SUCCEEDED] && g_info->defines[SUT_INVALID][M_PLAN_FAILED]) { logger_ops_effective = g_logger_mode == 0; }
 
 	void viol(const char* prop, const char* clause, const std::string& msg) {
 		std::string key = std::string(prop) + "/" + clause;
@@ -200,6 +201,8 @@ struct Mon {
 			break;
 		case A_PLAN_CLEAR: mirror_clear_user(); expect_result = 1; g_stats.hit("plan_clears"); break;
 		case A_PLAN_WALK: break;   // checked when the next view arrives (needs the visited list)
+		case A_LOGGER_ATTACH: if (logger_ops_effective) { T.logger = true; mark_nontrivial("logger_attached_mid_call"); } break;
+		case A_LOGGER_DETACH: if (logger_ops_effective) { T.logger = false; mark_nontrivial("logger_detached_mid_call"); } break;
 		default: break;
 		}
 	}
@@ -564,7 +567,7 @@ struct Mon {
 	//---------------------------------------------------------------------------------------------
 	void compare_logs() {
 		const std::vector<LogEv>& act = x.logs;
-		if (!T.logger && !act.empty()) { viol("C16", "no-records-without-logger", "records were emitted while no logger was attached"); return; }
+		if (exp.empty() && !act.empty()) { viol("C16", "no-records-without-logger", "a record was emitted although no logger was attached at that moment (or nothing happened that it could describe)"); return; }
 		static const char* const KN[] = { "method", "transition", "task-status", "plan-status", "cancellation" };
 		static const char* const CLN[] = { "method-record", "transition-record", "task-status-record", "plan-status-record", "cancellation-record" };
 		size_t i = 0, j = 0;
